@@ -725,11 +725,21 @@ def gen_hap_records(r, ds, per_locus):
                 pf[r.randrange(n)] = r.choice(["1e-6", "1e-42"])                                  # a tiny value next to ordinary ones
             elif mode < 0.74:
                 pf[r.randrange(n)] = "nan"       # a literal NaN: outside the documented domain (model against code only)
+            masked_here = None
+            if serial % 3 == 0 and n_alts:
+                # the allele the samples really carry (in the most copies) gets prior exactly 0, every other allele a positive one:
+                # the reads pull towards it, the prior forbids it (with inbreeding > 0 a chain that starts on it could stay there)
+                carried = {h: sum(ds.truth[s_][l.name].count(h) for s_ in ds.samples) for h in alts}
+                best = max(alts, key=lambda h: carried[h])
+                if carried[best] >= 2:
+                    pf = [r.choice(["0.25", "0.5", "1"]) for _ in range(n)]
+                    pf[alts.index(best) + 1] = "0"
+                    masked_here = best
             items = [f"PF={','.join(pf)}"]
             if n_alts:
                 items.append("AX=" + ",".join(r.choice(["0", "0.125", "0.25", "0.5", "1"]) for _ in range(n_alts)))
             items.append("IR=" + ",".join(str(r.choice([0, 1, 2, 5])) for _ in range(n)))
-            if r.random() < 0.2:
+            if r.random() < 0.2 and masked_here is None:
                 items.append("REFMASKED")
             recs.append((l, f"{l.contig}\t{l.start + 1}\t{l.name}.{k}\t{ref}\t{','.join(alts) if alts else '.'}\t.\tPASS\t{';'.join(items)}"))
     order = {c: i for i, c in enumerate(ds.contigs)}
@@ -941,8 +951,9 @@ def cli(chk, drv, r, tier, work, S, pysam):
                            ("call-exact", None, rnd_filter(), pick_report(r, True)), ("call-exact", "PF", rnd_filter(), pick_report(r, False)),
                            ("call", "PF", rnd_filter(), REPORT_ALL), ("call", None, ("PF", ">", "0"), pick_report(r, r.random() < 0.5))]
             for ci, (prog, tag, flt, report) in enumerate(configs):
-                runs.run_config(d, ds, dsdir, f"cfg{ci}", header, recs, prog, tag, flt, report, "generated", ped=ped,
-                                inbreeding=rnd_inbreeding() if ci > 0 else None)
+                # the sampler of mchap call always runs once with the frequency tag and inbreeding > 0
+                inb = r.choice(["0.25", "0.5", inb_file]) if (prog == "call" and tag == "PF") else (rnd_inbreeding() if ci > 0 else None)
+                runs.run_config(d, ds, dsdir, f"cfg{ci}", header, recs, prog, tag, flt, report, "generated", ped=ped, inbreeding=inb)
             # ---- probes of the two known crash sites (one record each)
             if d == 0:
                 l = next((x for x in ds.loci if x.snv_positions), None)
